@@ -45,7 +45,7 @@ def run(S):
     # whole documents through the real printer, the interpreted renderer and the real parser: the comments of the output are those of the source, in order,
     # each with its text (line comments verbatim, block comments line by line up to indentation and trailing blanks)
     from . import reparse as _rp, deep as _dp
-    _docs = _rp.COMMENT_DOCS + [src_ for _c, src_ in lists.corpus()] + [d_ for d_ in _rp.BLOCK_DOCS + _rp.MISC_DOCS + _rp.EVAL_DOCS + _dp.DOCS + _dp.OFF_DOCS + _rp.corpus_docs(S) if '//' in d_ or '/*' in d_]
+    _docs = _rp.in_contexts(_rp.COMMENT_DOCS) + [src_ for _c, src_ in lists.corpus()] + [d_ for d_ in _rp.BLOCK_DOCS + _rp.MISC_DOCS + _rp.EVAL_DOCS + _dp.DOCS + _dp.OFF_DOCS + _rp.corpus_docs(S) if '//' in d_ or '/*' in d_]
     _fr, _covr = _rp.explore(S, _docs, tabs=(2,) if S.tier == 'quick' else (2, 4), widths=(0, 1 << 30) if S.tier == 'quick' else (0, 20, 40, 80, 120, 1 << 30), prop='C06')
     _rp.report(S, 'C06', _fr)
     return S.finish(level='other', explanation=EXPLANATION, trusted=['mirsym encoder', 'std string contracts', 'Doc algebra contracts'])
